@@ -204,6 +204,9 @@ pub mod lex_api;
 pub mod parser;
 #[cfg(test)]
 pub mod test_utils;
+#[cfg(grmtools_verif)]
+#[doc(hidden)]
+pub mod verif_hooks;
 
 pub use crate::{
     ctbuilder::{
